@@ -127,6 +127,8 @@ type Violation struct {
 	EventHash uint64   `json:"event_hash"`
 	Reruns    int      `json:"minimise_reruns"`
 	OrigCells int      `json:"orig_cells"`
+	OrigScen  []uint32 `json:"orig_scen,omitempty"`
+	OrigDyn   []uint32 `json:"orig_dyn,omitempty"`
 }
 
 type Summary struct {
@@ -147,6 +149,7 @@ type Summary struct {
 	Violations  []Violation        `json:"violations"`
 	ClassCounts map[string]int     `json:"class_counts"`
 	Infra       []string           `json:"infra"`
+	NonDet      []string           `json:"nondeterminism"`
 	DetChecked  int                `json:"determinism_checked"`
 	DetFailed   int                `json:"determinism_failed"`
 	MaxSteps    int                `json:"max_steps"`
@@ -435,7 +438,16 @@ func explore(t *testing.T, p *Prop, tier string) {
 			sum.DetChecked++
 			if r2.out == nil || r2.out.EventHash != o.EventHash {
 				sum.DetFailed++
-				sum.Infra = append(sum.Infra, fmt.Sprintf("NONDETERMINISM run %d seed %d: %x vs %v", idx, rs, o.EventHash, r2.out))
+				if o.Class != "" || (r2.out != nil && r2.out.Class != "") {
+					// The code under test itself behaves nondeterministically (e.g. it
+					// iterates over a map that another goroutine modifies) AND violates
+					// the property: the violation is what gets reported, after replay.
+					sum.Probes["nondeterministic-code-under-test-with-violation"]++
+				} else {
+					if len(sum.NonDet) < 5 {
+						sum.NonDet = append(sum.NonDet, fmt.Sprintf("NONDETERMINISM run %d seed %d: event log %x vs %x", idx, rs, o.EventHash, r2.out.EventHash))
+					}
+				}
 			}
 		}
 		if o.Class != "" {
@@ -449,7 +461,7 @@ func explore(t *testing.T, p *Prop, tier string) {
 			if !have && len(sum.Violations) < maxViol {
 				scen, dyn, reruns, last := minimise(t, p, tier, tape.EffScen, tape.EffDyn, o.Class, minBudget)
 				sum.Violations = append(sum.Violations, Violation{Class: o.Class, Msg: last.Msg, RunIdx: idx, Seed: rs, Scen: scen, Dyn: dyn,
-					EventHash: last.EventHash, Reruns: reruns, OrigCells: len(tape.EffScen) + len(tape.EffDyn)})
+					EventHash: last.EventHash, Reruns: reruns, OrigCells: len(tape.EffScen) + len(tape.EffDyn), OrigScen: tape.EffScen, OrigDyn: tape.EffDyn})
 			}
 		}
 	}
